@@ -275,19 +275,28 @@ func (c *Ctx) VerifyBuiltin(ctorKey string) (*FuncReport, error) {
 		}
 	}
 	var req, ens []Clause
+	var patConds []string
 	for i, p := range d.Params {
 		if p.HasPat && i < len(pnames) {
 			cl, err := mk(fmt.Sprintf("declared-param-pattern.%d", i), fmt.Sprintf("inre(%s, %s)", pnames[i], quoteSpec(p.Pattern)))
 			if err != nil {
 				return nil, err
 			}
-			req = append(req, cl)
+			// The expression library calls a handler with whatever the argument expressions evaluate
+			// to: the declared parameter patterns are NOT enforced at call time. They are therefore
+			// no precondition of the handler (its no-panic obligations hold for all arguments); they
+			// only condition the declared result pattern below.
+			_ = cl
+			patConds = append(patConds, fmt.Sprintf("inre(entry_%s, %s)", pnames[i], quoteSpec(p.Pattern)))
 		}
 	}
 	if d.Result.HasPat {
 		text := fmt.Sprintf("inre(result, %s)", quoteSpec(d.Result.Pattern))
 		if sig.Results().Len() == 2 {
 			text = "result1 == nil ==> " + text
+		}
+		if len(patConds) > 0 {
+			text = "(" + strings.Join(patConds, " && ") + ") ==> (" + text + ")"
 		}
 		cl, err := mk("declared-result-pattern", text)
 		if err != nil {
@@ -353,6 +362,7 @@ func (c *Ctx) VerifyBuiltin(ctorKey string) (*FuncReport, error) {
 		c.AssumeWF(st, v, t)
 		args[i] = v
 		env.vars[pnames[i]] = specVal{v, t}
+		env.vars["entry_"+pnames[i]] = specVal{v, t}
 		run.modelVars = append(run.modelVars, ModelVar{Name: pnames[i], Term: v.S, Sort: v.Sort})
 	}
 	for _, r := range req {
